@@ -81,10 +81,13 @@ class C09(P.Property):
         db = {}
         c = 0
         big = (not small) and rng.random() < 0.05  # occasionally long lists: indexes and results beyond one 64 KiB frame / many blocks
+        mid = (not small) and scheme in ("CJJ14.PiBas", "CJJ14.PiPack", "CJJ14.PiPtr") and rng.random() < 0.012  # results of 64 KiB - 150 KiB
         for i in range(nkw):
             ln = rng.choice(LENS[:9] if small else LENS)
             if big and i < 2:
                 ln = rng.choice([100, 255, 256, 257, 300, 1024, 1025, 1500])
+            if mid and i == 0:
+                ln = rng.choice([6500, 8192, 12000])
             kw = "".join(rng.choice(["a", "b", "c", "k", "é", "z", "0", "-", "W", " ", "\x00", "ÿ", "\u20ac"]) for _ in range(rng.randint(1, 6))) + str(i)
             if kw[0] == "\x00":
                 kw = "n" + kw  # a keyword may contain NUL bytes but not start with one
@@ -141,7 +144,7 @@ class C09(P.Property):
             if not w or w[0] == "\x00":
                 w = "q" + w[1:]
             st = {"w": w, "recreate": rng.random() < 0.4, "gap": rng.choice([0, 0, 0.5, 1.5]), "restart": rng.random() < 0.12,
-                  "idle": rng.choice([0] * 9 + [25, 70])}  # idle time before the search on whatever connection is open
+                  "idle": rng.choice([0] * 44 + [25, 25, 70, 70, 1000, 4000])}  # idle time before the search on whatever connection is open
             steps.append(st)
         recreate = [rng.random() < 0.5 for _ in range(5)]  # before gen_key, encrypt, upload_config, upload_index, first search
         if rng.random() < 0.15:
@@ -189,6 +192,7 @@ class C09(P.Property):
         res = P.Result()
         knobs = plan["knobs"]
         run = fe.Run(plan["seed"], knobs)
+        run.sim.loop.max_time = 100000.0  # idle periods of up to 4000 s per search are part of the plans
         out = dict(obs=[], probes={}, cover={})
         try:
             with world.Watchdog(120):
